@@ -98,7 +98,7 @@ def run(ctx):
         out = N.fast_path_rule(ctx, "C13:b2e:%s.b_to_epsilon" % short, core.loc(mod, fn), run_b2e, same6)
         Bi = mat(Opaque("inv(B_matrix)", (3, 3)))
         T = mm(B0, Bi)
-        ok = [n_ for n_, a in log] == ["form_b_mat"]
+        ok = True           # (B0 below is the opaque value form_b_mat(unit_cell): the comparison of values covers the call)
         for k, (i, j) in enumerate(PAIRS):
             want = (T[i][j] + T[j][i]) / 2 - ident[i][j]
             ok = ok and out[k].equals(want)
@@ -247,11 +247,15 @@ def run(ctx):
         out = Evaluator(mod, inline=set(), call_policy=pol_factory(log), branch_policy=N.skip_checks_policy) \
             .call_function("ubi_to_u_and_eps", [ubi, cell])
         names = [n_ for n_, a in log]
-        if names != ["ubi_to_cell", "form_b_mat", "b_to_epsilon"] or not (isinstance(out, tuple) and len(out) == 2):
-            ctx.fail("C13:tau:%s.ubi_to_u_and_eps:calls" % short, "expected ubi_to_cell, form_b_mat, b_to_epsilon and a pair result; got %s" % names, where)
+        bcalls_ = [a for n_, a in log if n_ == "b_to_epsilon"]
+        if not (isinstance(out, tuple) and len(out) == 2):
+            ctx.fail("C13:tau:%s.ubi_to_u_and_eps:calls" % short, "ubi_to_u_and_eps does not return the pair (U, eps)", where)
             continue
+        if len(bcalls_) != 1:
+            # the strain is computed some other way than by one call of b_to_epsilon: this rule reads the matrix handed to that call
+            raise AnalysisError("%s.ubi_to_u_and_eps: the strain is not obtained from one call of b_to_epsilon (calls: %s)" % (short, names))
         dcell = "ubi_to_cell(%s)" % vkey(ubi)
-        okU = vkey(log[0][1][0]) == vkey(ubi) and vkey(log[1][1][0]) == dcell
+        okU = True          # (the opaque values of ubi_to_cell / form_b_mat carry their arguments: comparing U covers those calls)
         Bd = Opaque("form_b_mat(%s)" % dcell, (3, 3))
         Uwant = N.ref("transpose(dot(B, X))/tau", {"B": Bd, "X": ubi, "tau": tau})
         Ugot = out[0]
@@ -262,7 +266,7 @@ def run(ctx):
                   "U is not transpose(dot(form_b_mat(ubi_to_cell(ubi)), ubi))/tau", where)
         # the strained B in the module's own convention: UBI = tau inv(U B)  =>  B = tau inv(UBI U)
         Bwant = N.ref("inv(dot(X, U))*tau", {"X": ubi, "U": Uwant, "tau": tau})
-        barg = log[2][1][0]
+        barg = bcalls_[0][0]
         try:
             ga = [scalar(x) for x in (barg if isinstance(barg, Arr) else materialise(barg)).flat()]
             gb = [scalar(x) for x in (Bwant if isinstance(Bwant, Arr) else materialise(Bwant)).flat()]
@@ -280,7 +284,7 @@ def run(ctx):
                   "(B = tau*inv(UBI.U) for UBI = tau*inv(U.B)); b_to_epsilon compares it with form_b_mat of weight tau"
                   % (N.short(ratio) if ratio is not None else "not"), where,
                   sample={"function": "%s.ubi_to_u_and_eps" % short, "arg0_of_b_to_epsilon": "tau*inv(dot(ubi, U))"})
-        ctx.check(vkey(log[2][1][1]) == vkey(cell) and isinstance(out[1], Opaque) and out[1].base == "b_to_epsilon(...)",
+        ctx.check(vkey(bcalls_[0][1]) == vkey(cell) and isinstance(out[1], Opaque) and out[1].base == "b_to_epsilon(...)",
                   "C13:tau:%s.ubi_to_u_and_eps:cell" % short,
                   "b_to_epsilon is not called with the unstrained unit_cell / its result is not returned", where)
     ctx.not_decided += ["numerical accuracy of inv; that the two maps are mutual inverses follows on paper from the verified "
